@@ -78,6 +78,8 @@ def r1_logging(text, notes, extra_macros=()):
             continue
         calls = _macro_calls(text, mask, list(LOG_MACROS) + list(extra_macros))
         for (a, b, name) in calls:
+            if a >= 5 and mask[a - 5:a] == 'log::':
+                a -= 5          # path-qualified `log::debug!(..)`
             p = _prev_sig(mask, a)
             prevc = mask[p] if p >= 0 else '{'
             n = _next_sig(mask, b)
@@ -815,6 +817,106 @@ def r17_byte_conv(text, notes):
     return new
 
 
+def r18_from_bytes(text, notes):
+    """R18: `T::from_be_bytes(E.try_into().expect(..))` -> `T::vf_from_be_slice(&E)`: the conversion of a byte slice to
+    the integer's array (panics unless the width matches) and the decoding, as ONE helper that carries a spec"""
+    while True:
+        mask = mask_text(text)
+        hit = None
+        for m in re.finditer(r'::\s*from_be_bytes\s*\(', mask):
+            par = m.end() - 1
+            close = match_close(mask, par)
+            inner = mask[par + 1:close]
+            mt = re.search(r'\.\s*try_into\s*\(\s*\)\s*\.\s*(expect\s*\(|unwrap\s*\(\s*\))', inner)
+            if not mt:
+                continue
+            # the tail after try_into must be only the expect(..)/unwrap() call and an optional trailing comma
+            tail_start = par + 1 + mt.start()
+            k = par + 1 + mt.end()
+            if mt.group(1).startswith('expect'):
+                k = match_close(mask, k - 1) + 1
+            rest = mask[k:close].strip()
+            if rest not in ('', ','):
+                continue
+            hit = (m.start(), par, tail_start, close)
+            break
+        if not hit:
+            return text
+        st, par, tail_start, close = hit
+        expr = text[par + 1:tail_start].strip()
+        text = text[:st] + '::vf_from_be_slice(&%s)' % expr + text[close + 1:]
+        notes.add('R18', '`from_be_bytes(%s.try_into().expect(..))` lowered to vf_from_be_slice' % ' '.join(expr.split()))
+
+
+def r6_db_scans(text, notes):
+    """R6d: RocksDB scans `E.iterator(M).take_while(C1)[.filter(C2)]` -> vf_db_tw[_filter](E.iterator(M), C1[, C2])
+    (the consumer is a for loop after R16, or a further lowered adapter)"""
+    while True:
+        mask = mask_text(text)
+        m = re.search(r'\.\s*iterator\s*\(', mask)
+        if not m:
+            return text
+        par = m.end() - 1
+        close = match_close(mask, par)
+        mt = re.match(r'\s*\.\s*take_while\s*\(', mask[close + 1:])
+        if not mt:
+            # leave this one (mask it out by renaming is not possible): stop to avoid looping
+            return text
+        tpar = close + 1 + mt.end() - 1
+        tclose = match_close(mask, tpar)
+        rs = _receiver_start(mask, m.start())
+        recv = text[rs:close + 1]
+        c1 = text[tpar + 1:tclose].strip()
+        mf = re.match(r'\s*\.\s*filter\s*\(', mask[tclose + 1:])
+        if mf:
+            fpar = tclose + 1 + mf.end() - 1
+            fclose = match_close(mask, fpar)
+            c2 = text[fpar + 1:fclose].strip()
+            rep = 'vf_db_tw_filter(%s, %s, %s)' % (recv.replace('.iterator(', '.vf_iterator(', 1) if False else _mark_iter(recv), c1, c2)
+            end = fclose + 1
+        else:
+            rep = 'vf_db_tw(%s, %s)' % (_mark_iter(recv), c1)
+            end = tclose + 1
+        text = text[:rs] + rep + text[end:]
+        notes.add('R6', 'RocksDB scan `%s.take_while(..)%s` lowered to %s' % (' '.join(recv.split()), '.filter(..)' if mf else '', 'vf_db_tw_filter' if mf else 'vf_db_tw'))
+
+
+def _mark_iter(recv):
+    # `.iterator(` -> `.db_iterator(` so that the rule does not match its own output again (the shim names the method db_iterator)
+    i = recv.rfind('.iterator(')
+    j = recv.rfind('iterator')
+    return recv[:j] + 'db_iterator' + recv[j + len('iterator'):]
+
+
+def r19_bind_scan(text, notes):
+    """R19: `for P in vf_db_tw[_filter](..) {` -> `let scan__N = vf_db_tw[_filter](..); for P in scan__N {`
+    (the iterable is evaluated once before the loop either way; the name lets a proof hint talk about it)"""
+    n = 0
+    while True:
+        mask = mask_text(text)
+        hit = None
+        for off in kw_iter(mask, 'for'):
+            mi = re.match(r'for\s+([^{;]+?)\s+in\s+(vf_db_tw(?:_filter)?)\s*\(', mask[off:], re.S)
+            if not mi:
+                continue
+            par = off + mi.end() - 1
+            close = match_close(mask, par)
+            b = _next_sig(mask, close + 1)
+            if mask[b] != '{':
+                continue
+            hit = (off, off + mi.start(2), close)
+            break
+        if not hit:
+            return text
+        off, cs, close = hit
+        call = text[cs:close + 1]
+        head = text[off:cs]
+        name = 'scan__%d' % n
+        n += 1
+        text = text[:off] + 'let %s = %s;\n        %s%s' % (name, call, head, name) + text[close + 1:]
+        notes.add('R19', 'scan result bound to %s before its for loop' % name)
+
+
 def eta_expand_paths(text, notes):
     """R6 (part): a function path used as a closure is eta-expanded: `.map(ToOwned::to_owned)` -> `.map(|x| { x.to_owned() })`,
     `.map(Pack::pack)` -> `.map(|x| { Pack::pack(x) })`"""
@@ -855,9 +957,15 @@ def apply_rules(text, rules, notes, extra_log_macros=()):
             text = r16_for_each(text, notes)
         elif r == 'R17':
             text = r17_byte_conv(text, notes)
+        elif r == 'R18':
+            text = r18_from_bytes(text, notes)
+        elif r == 'R6d':
+            text = r6_db_scans(text, notes)
+        elif r == 'R19':
+            text = r19_bind_scan(text, notes)
         else:
             raise ExtractError('unknown rule ' + r)
     return text
 
 
-DEFAULT_RULES = ['R1', 'R2', 'R7', 'R8', 'R3', 'R4', 'R16', 'R17', 'R10', 'R6w', 'R6t', 'R6e', 'R15']
+DEFAULT_RULES = ['R1', 'R2', 'R7', 'R8', 'R3', 'R4', 'R16', 'R17', 'R18', 'R6d', 'R10', 'R6w', 'R6t', 'R6e', 'R15', 'R19']
